@@ -56,8 +56,9 @@ def p_locals(k):
     return ("fn g() -> int {\n%s    return (+ v0 v%d)\n}\n%s" % (body, k - 1, SH % "g")) + _main("    (println (g))\n", 3)
 
 
-STMT_KINDS = ["    set x (+ x 1)\n", "    set x (+ x 100000)\n", "    set x (- 0 x)\n", "    set x (+ (+ x 1) 1)\n",
-              "    set x (+ x 5000000000)\n", "    set x x\n"]
+# filler statements of different encoded sizes (measured by calibration, 16 / 7 / 6 / 26 bytes at the time of writing): a mix
+# of them hits a byte count exactly
+STMT_KINDS = ["    set x (+ x 1)\n", "    set x (- x)\n", "    set x x\n", "    set x (+ (+ x 1) 1)\n"]
 
 
 def p_code(counts, wrap=None):
@@ -95,13 +96,15 @@ def p_unions(k):
 
 
 def calibration_programs():
-    progs = {"cal_strings": p_strings(5), "cal_externs": p_externs(5), "cal_code_base": p_code([0] * len(STMT_KINDS))}
+    progs = {"cal_strings": p_strings(5), "cal_externs": p_externs(5)}
     for k in range(len(STMT_KINDS)):
-        c = [0] * len(STMT_KINDS)
-        c[k] = 4
-        progs["cal_code_%d" % k] = p_code(c)
-    progs["cal_code_if"] = p_code([4] + [0] * (len(STMT_KINDS) - 1), "if")
-    progs["cal_code_while"] = p_code([4] + [0] * (len(STMT_KINDS) - 1), "while")
+        for n in (4, 8):
+            c = [0] * len(STMT_KINDS)
+            c[k] = n
+            progs["cal_code_%d_%d" % (k, n)] = p_code(c)
+    for wrap in ("if", "while"):
+        for n in (4, 8):
+            progs["cal_code_%s_%d" % (wrap, n)] = p_code([n] + [0] * (len(STMT_KINDS) - 1), wrap)
     return progs
 
 
@@ -149,26 +152,36 @@ def limit_programs(cal):
     else:
         notes.append("string pool calibration program not accepted")
     for ln in (0, 1, 255, 256, 65535, 65536, 65537):
-        out.append(("string_length_%d" % ln, p_string_length(ln), {"maxstr": max(ln + 1, 4)} if ln >= 3 else {}))
+        out.append(("string_length_%d" % ln, p_string_length(ln), {"maxstr": ln} if ln >= 5 else {}))
     for k in (254, 255, 256, 257):
         out.append(("locals_%d" % k, p_locals(k), {"maxlocals": k} if k <= 256 else {}))
-    # code bytes per function
+    # code bytes per function (two-point calibration: bytes per statement of each kind, bytes of the function's frame)
     try:
-        base = int(cal["cal_code_base"]["maxfn"])
+        def two(prefix):
+            m4, m8 = int(cal[prefix + "_4"]["maxfn"]), int(cal[prefix + "_8"]["maxfn"])
+            per = (m8 - m4) // 4 if m8 > m4 and (m8 - m4) % 4 == 0 else None
+            return per, (m4 - 4 * per if per else None)
         sizes = []
+        base = None
         for k in range(len(STMT_KINDS)):
-            d = int(cal["cal_code_%d" % k]["maxfn"]) - base
-            sizes.append(d // 4 if d > 0 and d % 4 == 0 else None)
-        for t in (65535, 65536, 65537, 32767, 32768, 140000):
+            per, b0 = two("cal_code_%d" % k)
+            sizes.append(per)
+            if k == 0:
+                base = b0
+        for t in (32767, 32768, 32769, 65535, 65536, 65537, 140000):
             c = _solve(t, base, sizes)
             if c is None:
-                c = [max(0, (t - base) // (sizes[0] or 8))] + [0] * (len(sizes) - 1)
                 notes.append("no exact statement mix for a %d-byte function (statement sizes %s)" % (t, sizes))
+                continue
             out.append(("function_code_%d" % t, p_code(c), {"maxfn": t}))
         for wrap in ("if", "while"):
-            wbase = int(cal["cal_code_%s" % wrap]["maxfn"]) - 4 * sizes[0]
+            per, wbase = two("cal_code_%s" % wrap)
+            wsizes = [per] + sizes[1:]
             for t in (32768, 65536, 70000):
-                c = _solve(t, wbase, sizes) or [max(0, (t - wbase) // sizes[0])] + [0] * (len(sizes) - 1)
+                c = _solve(t, wbase, wsizes)
+                if c is None:
+                    notes.append("no exact statement mix for a %d-byte function with a %s body" % (t, wrap))
+                    continue
                 out.append(("function_code_%s_body_%d" % (wrap, t), p_code(c, wrap), {"maxfn": t}))
     except (KeyError, TypeError, ValueError) as ex:
         notes.append("code size calibration failed: %r" % (ex,))
@@ -219,18 +232,21 @@ def interleave_program(rng, idx):
             steps.append('    (print "vm-noline %s|")\n' % tag)
             kinds.append("vm-noline")
         elif r < 0.52:
-            s = "[write1 %s]" % tag + ("\n" if rng.random() < 0.5 else "")
-            steps.append('    unsafe { set r (write 1 "%s" %d) }\n' % (s.replace("\n", "\\n"), len(s)))
+            s = "[write1 %s]" % tag
+            if rng.random() < 0.5:      # string literals keep a backslash escape as two characters: the newline is computed
+                steps.append('    unsafe { set r (write 1 (+ "%s" (string_from_char 10)) %d) }\n' % (s, len(s) + 1))
+            else:
+                steps.append('    unsafe { set r (write 1 "%s" %d) }\n' % (s, len(s)))
             kinds.append("write1")
         elif r < 0.62:
-            s = "[write2 %s]\n" % tag
-            steps.append('    unsafe { set r (write 2 "%s" %d) }\n' % (s.replace("\n", "\\n"), len(s)))
+            s = "[write2 %s]" % tag
+            steps.append('    unsafe { set r (write 2 (+ "%s" (string_from_char 10)) %d) }\n' % (s, len(s) + 1))
             kinds.append("write2")
         elif r < 0.76:
-            steps.append('    unsafe { set r (system "printf \'child1 %s\\\\n\'") }\n' % tag)
+            steps.append('    unsafe { set r (system "echo child1 %s") }\n' % tag)
             kinds.append("system1")
         elif r < 0.84:
-            steps.append('    unsafe { set r (system "printf \'child2 %s\\\\n\' 1>&2") }\n' % tag)
+            steps.append('    unsafe { set r (system "echo child2 %s 1>&2") }\n' % tag)
             kinds.append("system2")
         elif r < 0.94:
             steps.append('    unsafe { set r (puts "puts %s") }\n' % tag)
@@ -274,7 +290,7 @@ shadow main { assert true }
 """,
     "only_foreign": EXTERNS + """fn main() -> int {
     let mut r: int = 0
-    unsafe { set r (write 1 "only foreign writers\\n" 21) }
+    unsafe { set r (write 1 (+ "only foreign writers" (string_from_char 10)) 21) }
     unsafe { set r (system "echo child") }
     unsafe { set r (puts "puts line") }
     return 5
@@ -296,7 +312,7 @@ shadow main { assert true }
     (print "partial ")
     unsafe { set r (system "echo child") }
     (println "rest of the line")
-    unsafe { set r (write 2 "to stderr\\n" 10) }
+    unsafe { set r (write 2 (+ "to stderr" (string_from_char 10)) 10) }
     (println "last")
     return 42
 }
